@@ -36,6 +36,7 @@ pub fn standard_plan(tier: Tier, scale: u64) -> Plan {
         Tier::Quick => {
             families.push((Box::new(EpFamily { extra: Extra::None, pre_push: false }), 1));
             families.push((Box::new(EpFamily { extra: Extra::None, pre_push: true }), 2));
+            families.push((Box::new(EpTwoFamily { extra: Extra::None, pre_push: true }), 2));
             families.push((Box::new(CastleFamily { extras: 0, opp_rights: false, opp_to_move: false }), 1));
             families.push((Box::new(CastleFamily { extras: 1, opp_rights: false, opp_to_move: false }), 1));
             families.push((Box::new(CastleFamily { extras: 0, opp_rights: false, opp_to_move: true }), 2));
@@ -47,6 +48,8 @@ pub fn standard_plan(tier: Tier, scale: u64) -> Plan {
             families.push((Box::new(EpFamily { extra: Extra::Any, pre_push: false }), 1));
             families.push((Box::new(EpFamily { extra: Extra::None, pre_push: true }), 3));
             families.push((Box::new(EpFamily { extra: Extra::EnemySlider, pre_push: true }), 2));
+            families.push((Box::new(EpTwoFamily { extra: Extra::None, pre_push: true }), 3));
+            families.push((Box::new(EpTwoFamily { extra: Extra::EnemySlider, pre_push: true }), 2));
             families.push((Box::new(CastleFamily { extras: 0, opp_rights: false, opp_to_move: false }), 2));
             families.push((Box::new(CastleFamily { extras: 1, opp_rights: false, opp_to_move: false }), 1));
             families.push((Box::new(CastleFamily { extras: 1, opp_rights: true, opp_to_move: false }), 1));
@@ -93,6 +96,8 @@ pub fn with_ep_slider_family(mut plan: Plan, tier: Tier) -> Plan {
         // member = position before the double push; first action = the push (made by the library),
         // then every reply: the en-passant captures are judged on incrementally produced boards
         plan.families.push((Box::new(EpFamily { extra: Extra::EnemySlider, pre_push: true }), 2));
+        // a capturer on both sides of the pushed pawn (each pinned or not independently), every reply applied
+        plan.families.push((Box::new(EpTwoFamily { extra: Extra::EnemySlider, pre_push: false }), 1));
     }
     plan
 }
@@ -102,6 +107,27 @@ pub fn with_ep_slider_family(mut plan: Plan, tier: Tier) -> Plan {
 pub fn with_ep_slider_positions(mut plan: Plan, tier: Tier) -> Plan {
     if tier == Tier::Quick {
         plan.families.push((Box::new(EpFamily { extra: Extra::EnemySlider, pre_push: false }), 0));
+        plan.families.push((Box::new(EpTwoFamily { extra: Extra::EnemySlider, pre_push: false }), 0));
+    }
+    plan
+}
+
+/// Line geometry around a king (pins, non-pins, batteries of stacked sliders, two lines at once),
+/// judged as positions (`depth_single` plies below the single-ray members).
+pub fn with_line_geometry(plan: Plan, pairs: bool, depth_single: u8) -> Plan {
+    with_line_geometry_for(plan, pairs, depth_single, false)
+}
+/// `mover_only`: of the two-ray members keep those in which the side with the pinned men is to move
+/// (for oracles that are expensive per state and judge the mover's moves).
+pub fn with_line_geometry_for(mut plan: Plan, pairs: bool, depth_single: u8, mover_only: bool) -> Plan {
+    plan.families.push((Box::new(line_family(false, true)), depth_single));
+    if pairs {
+        let mut f = line_family(true, false);
+        if mover_only {
+            f.items.retain(|p| (0..64u8).any(|s| p.at(s) == Some((Kind::N, p.stm))));
+            f.label.push_str("; members with the pinned side to move only");
+        }
+        plan.families.push((Box::new(f), 0));
     }
     plan
 }
